@@ -29,6 +29,9 @@ pub struct Case {
     target_name: Option<String>,
     /// payload layout of the CHALLENGE (vref::ntlm::ServerCfg::layout)
     layout: u8,
+    /// 1: create_negotiate_message is called twice before the CHALLENGE; 2: the first NEGOTIATE is answered by a CHALLENGE
+    /// without timestamp (refused by this client), then the handshake starts again
+    negotiate_again: u8,
 }
 
 pub struct C15 {
@@ -91,7 +94,7 @@ impl Prop for C15 {
     fn prepare(&mut self, tier: Tier) -> Result<(), String> {
         let strings = string_alphabet();
         let default_av: Vec<(u16, usize)> = vec![(rn::AV_NB_DOMAIN, 6), (rn::AV_NB_COMPUTER, 6), (rn::AV_DNS_DOMAIN, 18), (rn::AV_DNS_COMPUTER, 18), (rn::AV_TIMESTAMP, 8)];
-        let base = Case { domain: "DOM".into(), user: "user".into(), password: "S3cr3t-pässwörd".into(), via_hash: false, challenge: CHALLENGES[2], nonce: 2, av: default_av.clone(), flags: rn::DEFAULT_FLAGS, block: "base", earlier: None, maxlen: None, target_name: None, layout: 0 };
+        let base = Case { domain: "DOM".into(), user: "user".into(), password: "S3cr3t-pässwörd".into(), via_hash: false, challenge: CHALLENGES[2], nonce: 2, av: default_av.clone(), flags: rn::DEFAULT_FLAGS, block: "base", earlier: None, maxlen: None, target_name: None, layout: 0, negotiate_again: 0 };
         let mut cs = vec![base.clone()];
         // strings: one dimension at a time, and all three together; password vs hash
         for s in &strings {
@@ -239,6 +242,36 @@ impl Prop for C15 {
                 }
             }
         }
+        // every single flag bit the default set lacks, added alone (bits that say nothing about NTLMv2 key derivation:
+        // reserved bits, OEM-supplied, LOCAL_CALL, TARGET_TYPE_DOMAIN, IDENTIFY, REQUEST_NON_NT_SESSION_KEY, LM_KEY, DATAGRAM ...)
+        for bit in 0..32u32 {
+            let extra = 1u32 << bit;
+            if rn::DEFAULT_FLAGS & extra != 0 || extra == rn::F_OEM {
+                continue;
+            }
+            for via_hash in [false, true] {
+                cs.push(Case { flags: rn::DEFAULT_FLAGS | extra, via_hash, block: "one-more-flag-bit", ..base.clone() });
+            }
+        }
+        // create_negotiate_message called twice (the first NEGOTIATE unanswered and sent again; or answered by a
+        // CHALLENGE the client refuses) before the handshake that is judged: the MIC covers the last NEGOTIATE alone
+        for via_hash in [false, true] {
+            for again in [1u8, 2] {
+                cs.push(Case { via_hash, negotiate_again: again, block: "negotiate-sent-again", ..base.clone() });
+            }
+        }
+        // no target name: REQUEST_TARGET clear and a zeroed / stale TargetName descriptor (to be ignored on receipt)
+        for layout in [4u8, 5] {
+            for version in [true, false] {
+                for via_hash in [false, true] {
+                    let mut flags = rn::DEFAULT_FLAGS & !rn::F_REQUEST_TARGET & !rn::F_TARGET_TYPE_SERVER;
+                    if !version {
+                        flags &= !rn::F_VERSION;
+                    }
+                    cs.push(Case { flags, via_hash, layout, target_name: Some(String::new()), block: "target-name-descriptor-to-be-ignored", ..base.clone() });
+                }
+            }
+        }
         // a second handshake on the same object: every ordered pair of (VERSION, UNICODE) flag sets, both logon kinds
         let fl = |version: bool, unicode: bool| {
             let mut flags = rn::F_REQUEST_TARGET | rn::F_SIGN | rn::F_SEAL | rn::F_NTLM | rn::F_ESS | rn::F_TARGET_INFO | rn::F_128 | rn::F_KEY_EXCH;
@@ -264,7 +297,7 @@ impl Prop for C15 {
         json!({"idx": idx, "case": self.cases[idx as usize]})
     }
     fn rule(&self) -> String {
-        "cases = (domain, user, password | NT hash, server challenge, client nonce pattern, target-info block, negotiate flags). Strings: class^len for class in {a, é, 日, 😀} x len in {0,1,7,8,15,16,17,31,32,64}, every mixed string of <=3 code points over the four classes, the boundary code points of every UTF-8/UTF-16 encoding length (U+1, 7F, 80, 7FF, 800, D7FF, E000, FFFD, FFFF, 10000, 10001, FFFFF, 100000, 10FFFF) alone and between letters, a few practical names; varied one at a time and jointly (full user x domain and password x domain products in thorough); 4 challenges x 3 nonce patterns; every subset of the 9 optional AV ids with the timestamp at first/middle/last (every) position; every permutation of <=4 pairs including the timestamp; value lengths {0,2,16,510}; target information of 30000..65491 bytes (the largest the 16-bit NT response length can echo) with short and kilobyte-long names; OEM sessions with lower / mixed / upper case ASCII names; both character-set bits set; empty / 1-character / long target names (the target information then starts the payload); the target information placed before the target name, followed by 12 bytes that no field refers to, or preceded by an 8-byte gap after the header; TargetInfo / TargetName MaxLen fields set to 0, 1, 8, 0x7FFF, 0xFFFF while Len stays honest; flags with/without VERSION and UNICODE and neutral bits; and a second handshake on the same Ntlm object for every ordered pair of (VERSION, UNICODE) flag sets. Each AUTHENTICATE is verified by the reference MS-NLMP server: field descriptors, NTProofStr, LMv2, key-exchange unwrap, MIC, names; and hash-based == password-based. Non-trivial: every case except the base one.".into()
+        "cases = (domain, user, password | NT hash, server challenge, client nonce pattern, target-info block, negotiate flags). Strings: class^len for class in {a, é, 日, 😀} x len in {0,1,7,8,15,16,17,31,32,64}, every mixed string of <=3 code points over the four classes, the boundary code points of every UTF-8/UTF-16 encoding length (U+1, 7F, 80, 7FF, 800, D7FF, E000, FFFD, FFFF, 10000, 10001, FFFFF, 100000, 10FFFF) alone and between letters, a few practical names; varied one at a time and jointly (full user x domain and password x domain products in thorough); 4 challenges x 3 nonce patterns; every subset of the 9 optional AV ids with the timestamp at first/middle/last (every) position; every permutation of <=4 pairs including the timestamp; value lengths {0,2,16,510}; target information of 30000..65491 bytes (the largest the 16-bit NT response length can echo) with short and kilobyte-long names; OEM sessions with lower / mixed / upper case ASCII names; both character-set bits set; empty / 1-character / long target names (the target information then starts the payload); the target information placed before the target name, followed by 12 bytes that no field refers to, or preceded by an 8-byte gap after the header; TargetInfo / TargetName MaxLen fields set to 0, 1, 8, 0x7FFF, 0xFFFF while Len stays honest; flags with/without VERSION and UNICODE and neutral bits; every single flag bit outside the default set added alone; a NEGOTIATE sent again before the CHALLENGE (unanswered, or answered by a CHALLENGE the client refuses); REQUEST_TARGET clear with a zeroed or stale TargetName descriptor; and a second handshake on the same Ntlm object for every ordered pair of (VERSION, UNICODE) flag sets. Each AUTHENTICATE is verified by the reference MS-NLMP server: field descriptors, NTProofStr, LMv2, key-exchange unwrap, MIC, names; and hash-based == password-based. Non-trivial: every case except the base one.".into()
     }
     fn assumptions(&self) -> Vec<String> {
         vec![
@@ -292,6 +325,15 @@ impl Prop for C15 {
             }
             if let Err(e) = ntlm.read_challenge_message(&rn::challenge_message(&cfg1)) {
                 return Outcome::fail("error", "conforming-challenge-rejected", format!("earlier handshake: {:?}", e));
+            }
+        }
+        if c.negotiate_again > 0 {
+            if let Err(e) = ntlm.create_negotiate_message() {
+                return Outcome::fail("error", "negotiate-error", format!("{:?}", e));
+            }
+            if c.negotiate_again == 2 {
+                let refused = ServerCfg { flags: rn::DEFAULT_FLAGS, challenge: [0x77; 8], target_name: "X".into(), av_pairs: vec![(rn::AV_NB_DOMAIN, av_value(rn::AV_NB_DOMAIN, 4))], maxlen_override: None, layout: 0 };
+                let _ = ntlm.read_challenge_message(&rn::challenge_message(&refused));
             }
         }
         let negotiate = match ntlm.create_negotiate_message() {
